@@ -45,8 +45,14 @@ def _case(draw):
     w = [draw(st.sampled_from([1.0, 2.0, 6.283185307179586, 0.5, 20.0])) for _ in range(d)]
     comps = draw(st.integers(1, 2))
     centers = [[draw(st.sampled_from([0.5, 0.3, 0.8, 0.05, 0.95, 0.5])) for _ in range(d)] for _ in range(comps)]
+    width = draw(st.sampled_from(["float32", "float64", "float64"]))
+    dtype_default = draw(st.integers(0, 3)) == 0
+    if dtype_default:  # dtype left unset: the back-end's default width (float32 for both back-ends)
+        width = "float32"
     return {
-        "backend": backend, "d": d, "bounded": bounded, "affine": draw(st.booleans()), "width": draw(st.sampled_from(["float32", "float64", "float64"])),
+        "backend": backend, "d": d, "bounded": bounded, "affine": draw(st.booleans()), "width": width, "dtype_default": dtype_default,
+        # bounds written as Python ints where the values are integral (as users write them)
+        "int_bounds": draw(st.booleans()),
         "lower": lo, "w": w, "centers": centers, "spread": draw(st.sampled_from([0.02, 0.05, 0.15])),
         "n_train": draw(st.sampled_from([48, 96])), "epochs": draw(st.sampled_from([0, 1, 3, 25])),
         "route": draw(st.sampled_from(["direct", "direct", "aspire"])), "options": draw(st.sampled_from(["default", "nondefault"])),
@@ -196,7 +202,12 @@ def _build(case):
     params = ["zeta", "alpha"][:d]
     lo = np.array(case["lower"], dtype=float)
     hi = lo + np.array(case["w"], dtype=float)
-    bounds = {p: [float(lo[i]), float(hi[i])] for i, p in enumerate(params)} if case["bounded"] else None
+    def _num(v):
+        v = float(v)
+        return int(v) if case.get("int_bounds") and v == int(v) else v
+
+    bounds = {p: [_num(lo[i]), _num(hi[i])] for i, p in enumerate(params)} if case["bounded"] else None
+    dtype_arg = None if case.get("dtype_default") else case["width"]
     if bounds and case.get("bounds_reversed"):
         bounds = dict(reversed(list(bounds.items())))
     kw = {}
@@ -220,7 +231,7 @@ def _build(case):
         xp = env.xp_of("torch" if backend == "zuko" else "jax")
         a = Aspire(log_likelihood=lambda s: None, log_prior=lambda s: None, dims=d, parameters=params, prior_bounds=bounds,
                    bounded_to_unbounded=bool(case["bounded"]), bounded_transform=case["bounded"] or "logit", flow_backend=backend,
-                   xp=xp, dtype=case["width"], **kw)
+                   xp=xp, dtype=dtype_arg, **kw)
         # affine on/off is not exposed by Aspire: its wiring always whitens
         if case["epochs"] > 0:
             if case.get("prefit"):
@@ -234,8 +245,8 @@ def _build(case):
         return a, a.flow, data
     Flow, fxp = get_flow_wrapper(backend)
     dtf = FlowTransform(parameters=params, prior_bounds=bounds, bounded_to_unbounded=bool(case["bounded"]),
-                        bounded_transform=case["bounded"] or "logit", affine_transform=case["affine"], xp=fxp, dtype=case["width"])
-    f = Flow(dims=d, data_transform=dtf, dtype=case["width"], **kw)
+                        bounded_transform=case["bounded"] or "logit", affine_transform=case["affine"], xp=fxp, dtype=dtype_arg)
+    f = Flow(dims=d, data_transform=dtf, dtype=dtype_arg, **kw)
     if case.get("prefit"):
         f.fit_data_transform(fxp.asarray(_other(case, data), dtype=f.dtype))
     if case["epochs"] > 0:
@@ -250,6 +261,10 @@ def run_case(case, ctx):
 
     labels = [case["backend"], str(case["bounded"]), "affine" if case["affine"] or case["route"] == "aspire" else "no-affine", case["width"],
               f"d{case['d']}", "trained" if case["epochs"] else "untrained", case["route"]]
+    if case.get("dtype_default"):
+        labels.append("dtype-default")
+    if case.get("int_bounds") and case["bounded"]:
+        labels.append("int-bounds")
     a, flow, data = _build(case)
     lo = np.array(case["lower"], dtype=float)
     hi = lo + np.array(case["w"], dtype=float)
@@ -317,7 +332,8 @@ def run_case(case, ctx):
         with AspireFile(p, "r") as h:
             r = type(flow).load(h, "flow")
         lp2 = env.to_np(r.log_prob(x)).astype(np.float64)
-        if (ok & (np.abs(lp2 - lp) > 1e-6 * (1 + np.abs(lp)))).any():
+        # a float32 flow may hold its fitted constants wider than it stores them: the reload is exact to the declared width only
+        if (ok & (np.abs(lp2 - lp) > (1e-6 if w64 else 2e-5) * (1 + np.abs(lp)))).any():
             j = int(np.argmax(np.abs(lp2 - lp) * ok))
             ctx.fail("reload-changes-density", f"log_prob after save/load is {lp2[j]:.8g}, before {lp[j]:.8g}", case)
         total2 = _integral(case, r, data, span)
